@@ -369,10 +369,14 @@ def script_sequences(tier, seed):
     ops = [("assert", a), ("assert", b), ("push", 0), ("push", 1), ("push", 2), ("pop", 1), ("pop", 2), ("reset", None),
            ("soft", ("g", a)), ("soft", ("g", b)), ("soft", ("h", a)), ("min", x), ("max", x), ("check", None)]
     L = 4 if tier == "quick" else 5
+    # second family: only soft constraints of two goal ids and the stack commands, one command longer (the bookkeeping of
+    # several live MaxSMT goals across push / pop needs at least five commands to go wrong)
+    ops2 = [("soft", ("g", a)), ("soft", ("g", b)), ("soft", ("h", a)), ("soft", ("h", b)), ("push", 1), ("push", 2), ("pop", 1), ("pop", 2)]
     n = nontriv = 0
     viol, samples = [], []
-    for k in range(1, L + 1):
-        for seq in itertools.product(ops, repeat=k):
+    families = [(ops, k) for k in range(1, L + 1)] + [(ops2, L + 1)]
+    for ops_, k in families:
+        for seq in itertools.product(ops_, repeat=k):
             ref, sc, legal = RefStack(), SmtLibScript(), True
             for o, v in seq:
                 if o == "assert":
@@ -430,7 +434,8 @@ def script_sequences(tier, seed):
     return {"name": "script_sequences", "bounded": True, "exhaustive": True, "evaluations": n, "distinct_nontrivial": nontriv,
             "rule": "all legal command lists of length <= %d over assert a/b, push 0..2, pop 1..2, reset-assertions, "
                     "assert-soft with ids g/h, minimize, maximize, check-sat; get_last_formula(return_optimizations=True) "
-                    "compared with a reference assertion stack" % L,
+                    "compared with a reference assertion stack; plus all lists of length %d over assert-soft (2 ids x 2 clauses), "
+                    "push 1..2, pop 1..2" % (L, L + 1),
             "samples": samples, "violations": viol}
 
 
